@@ -79,18 +79,20 @@ RULE = ("cases = (a) all unordered pairs of a fixed list of atoms (builtin scala
 ASSUMPTIONS = ["numpy, pandas, copy.deepcopy and pickle are trusted to reproduce the described value",
                "the harness oracle diff() defines 'observably different' (type, value, dtype, shape, names, index, categories, "
                "fields, code/defaults/closure); memory layout and block structure are not observable differences"]
-BUDGET = {"quick": 30, "thorough": 520}
+BUDGET = {"quick": 40, "thorough": 520}
 CASE_TIMEOUT = 1000
 FLOORS = {
-    # measured on the unchanged tree (seed 0): 78177 cases, 84267 distinct, determinism_checks 479864,
-    # xproc_comparisons 57600, pairs_compared 69932, equal_pairs_compared 4795, diff_mechanisms 985
+    # measured (seed 0; seeds 1, 2, 7, 12345 within 1 %): 78177 cases, 84995 distinct, determinism_checks 479662,
+    # xproc_comparisons 57600 (32 batches), pairs_compared 70260, equal_pairs_compared 4641, tokenize_calls 660720,
+    # diff_mechanisms 986, value_features 60, hash_probe_values 34
     "quick": {"evaluations": 35000, "distinct_nontrivial": 38000,
               "counters": {"determinism_checks": 200000, "xproc_comparisons": 25000, "xproc_batches": 14,
                            "pairs_compared": 30000, "equal_pairs_compared": 2000, "tokenize_calls": 300000},
               "sets": {"diff_mechanisms": 400, "value_features": 25, "hash_probe_values": 10},
               "max_skipped_fraction": 0.05},
-    # thorough = 800000 pairs + 192 interpreter batches of 800: scaled from the quick per-case rates
-    # (7.7 determinism checks, 0.86 compared pairs, 0.08 equal pairs, 10.7 tokenize calls per pair case)
+    # measured (seed 0, before the structured-dtype family was added): 818337 cases, 730181 distinct,
+    # determinism_checks 6364588, xproc_comparisons 460800 (192 batches), pairs_compared 708041,
+    # equal_pairs_compared 64657, tokenize_calls 8668792, diff_mechanisms 985, hash_probe_values 194
     "thorough": {"evaluations": 350000, "distinct_nontrivial": 350000,
                  "counters": {"determinism_checks": 2500000, "xproc_comparisons": 200000, "xproc_batches": 80,
                               "pairs_compared": 300000, "equal_pairs_compared": 25000, "tokenize_calls": 3500000},
